@@ -94,6 +94,8 @@ func (st *ilStmt) sql(reg map[int32]string) string {
 		return fmt.Sprintf("SELECT id, k, v FROM t WHERE id > %d AND id <= %d;", st.ID, st.ID2)
 	case "read-k":
 		return fmt.Sprintf("SELECT id, k, v FROM t WHERE k = %d;", st.K)
+	case "read-join":
+		return fmt.Sprintf("SELECT t.id, t.k, t.v FROM u, t WHERE u.k = t.k AND u.w = %d;", st.K)
 	case "insert":
 		return fmt.Sprintf("INSERT INTO t(id, k, v) VALUES (%d, %d, '%s');", st.ID, st.K, st.Tok)
 	case "delete":
@@ -127,7 +129,7 @@ func (st *ilStmt) evalRead(s ilState) []rm.Row {
 			ok = id >= st.ID && id <= st.ID2
 		case "read-range-open":
 			ok = id > st.ID && id <= st.ID2
-		case "read-k":
+		case "read-k", "read-join":
 			ok = k == st.K
 		}
 		if ok {
@@ -328,6 +330,9 @@ func ilCase(env *core.Env, idx int, prop string) *core.CaseResult {
 	fresh := int32(10)
 	// every fifth C04 case runs on a three-page table whose hot rows sit at page boundaries
 	wide := !rmw && idx%5 == 0
+	// every third C04 case: some reads by k go through a join with a second table (index join / hash join / nested loop: statistics drawn)
+	withJoin := !rmw && idx%3 == 1
+	joinStats := r.Intn(3) != 0
 	if wide {
 		fresh = 100
 	}
@@ -362,7 +367,22 @@ func ilCase(env *core.Env, idx int, prop string) *core.CaseResult {
 				w = ilStmt{Kind: "upd-k", ID: id, K: int32(r.Intn(3))}
 			}
 			rd := []ilStmt{{Kind: "read-scan", ID: id}, {Kind: "read-idx", ID: id}, {Kind: "read-range", ID: id, ID2: id + 2}, {Kind: "read-k", K: int32(r.Intn(3))}}[r.Intn(4)]
+			if withJoin && r.Intn(2) == 0 {
+				rd = ilStmt{Kind: "read-join", K: id % 3} // the rows sharing the written row's k, reached through the join
+			}
 			progs[p].Stmts[0], progs[p].Stmts[1] = w, rd
+		}
+	}
+	if withJoin {
+		for p := range progs {
+			for i := range progs[p].Stmts {
+				st := &progs[p].Stmts[i]
+				if st.Kind == "read-k" && r.Intn(2) == 0 {
+					st.Kind = "read-join"
+				} else if st.isRead() && st.Kind != "read-join" && r.Intn(4) == 0 {
+					*st = ilStmt{Kind: "read-join", K: int32(r.Intn(3))}
+				}
+			}
 		}
 	}
 	if wide {
@@ -423,6 +443,9 @@ func ilCase(env *core.Env, idx int, prop string) *core.CaseResult {
 		if wide {
 			set["three-page-table"] = true
 		}
+		if withJoin {
+			set["join-reads"] = true
+		}
 		for _, p := range progs {
 			for _, s := range p.Stmts {
 				set["stmt-"+s.Kind] = true
@@ -448,6 +471,17 @@ func ilCase(env *core.Env, idx int, prop string) *core.CaseResult {
 			txn := db.Begin()
 			db.InsertPlan(txn, "t", M.rows())
 			db.Commit(txn)
+		}
+		if withJoin {
+			// a second, static table u(k, w) = {(0,0),(1,1),(2,2)}: "read-join" statements reach the rows of t with k = K through a join
+			// (whatever join algorithm is planned, the answer is the same as that of the read by k)
+			db.CreateTableSQL("u", []rm.Col{{Name: "k", K: rm.KInt}, {Name: "w", K: rm.KInt}})
+			txn := db.Begin()
+			db.InsertPlan(txn, "u", []rm.Row{{rm.Int(0), rm.Int(0)}, {rm.Int(1), rm.Int(1)}, {rm.Int(2), rm.Int(2)}})
+			db.Commit(txn)
+			if joinStats {
+				db.UpdateStats()
+			}
 		}
 		type live struct {
 			h       *access.Transaction
